@@ -18,8 +18,6 @@ func (e *Engine) prepareGoal(hyp, goal *Term) []*Term {
 	return e.prepareGoalMode(hyp, goal, false)
 }
 
-// instHints are extra instantiation terms (set per obligation by Discharge).
-var instHints []*Term
 
 // prepareGoalMode with dropQ replaces each positive universally quantified
 // hypothesis by its instances only (a weakening of the hypotheses: "unsat"
@@ -114,7 +112,7 @@ func (e *Engine) prepareGoalMode(hyp, goal *Term, dropQ bool) []*Term {
 			}
 		}
 		walk(g2)
-		for _, h := range instHints {
+		for _, h := range e.instHints {
 			add(h)
 		}
 		sort.SliceStable(cands, func(i, j int) bool { return Size(cands[i]) < Size(cands[j]) })
